@@ -19,7 +19,10 @@ func pt(l string) {
 	}
 }
 
-func LoadPointer(addr *unsafe.Pointer) unsafe.Pointer { pt("atomic.LoadPointer"); return real.LoadPointer(addr) }
+func LoadPointer(addr *unsafe.Pointer) unsafe.Pointer {
+	pt("atomic.LoadPointer")
+	return real.LoadPointer(addr)
+}
 func StorePointer(addr *unsafe.Pointer, v unsafe.Pointer) {
 	pt("atomic.StorePointer")
 	real.StorePointer(addr, v)
@@ -95,9 +98,9 @@ func (x *Pointer[T]) CompareAndSwap(o, n *T) bool {
 // Value mirrors atomic.Value.
 type Value struct{ v real.Value }
 
-func (x *Value) Load() any         { pt("atomic.Value.Load"); return x.v.Load() }
-func (x *Value) Store(v any)       { pt("atomic.Value.Store"); x.v.Store(v) }
-func (x *Value) Swap(v any) any    { pt("atomic.Value.Swap"); return x.v.Swap(v) }
+func (x *Value) Load() any      { pt("atomic.Value.Load"); return x.v.Load() }
+func (x *Value) Store(v any)    { pt("atomic.Value.Store"); x.v.Store(v) }
+func (x *Value) Swap(v any) any { pt("atomic.Value.Swap"); return x.v.Swap(v) }
 func (x *Value) CompareAndSwap(o, n any) bool {
 	pt("atomic.Value.CompareAndSwap")
 	return x.v.CompareAndSwap(o, n)
@@ -117,10 +120,10 @@ func (x *Bool) CompareAndSwap(o, n bool) bool {
 // Int32 mirrors atomic.Int32.
 type Int32 struct{ v real.Int32 }
 
-func (x *Int32) Load() int32         { pt("atomic.Int32.Load"); return x.v.Load() }
-func (x *Int32) Store(v int32)       { pt("atomic.Int32.Store"); x.v.Store(v) }
-func (x *Int32) Add(d int32) int32   { pt("atomic.Int32.Add"); return x.v.Add(d) }
-func (x *Int32) Swap(v int32) int32  { pt("atomic.Int32.Swap"); return x.v.Swap(v) }
+func (x *Int32) Load() int32        { pt("atomic.Int32.Load"); return x.v.Load() }
+func (x *Int32) Store(v int32)      { pt("atomic.Int32.Store"); x.v.Store(v) }
+func (x *Int32) Add(d int32) int32  { pt("atomic.Int32.Add"); return x.v.Add(d) }
+func (x *Int32) Swap(v int32) int32 { pt("atomic.Int32.Swap"); return x.v.Swap(v) }
 func (x *Int32) CompareAndSwap(o, n int32) bool {
 	pt("atomic.Int32.CompareAndSwap")
 	return x.v.CompareAndSwap(o, n)
@@ -129,10 +132,10 @@ func (x *Int32) CompareAndSwap(o, n int32) bool {
 // Int64 mirrors atomic.Int64.
 type Int64 struct{ v real.Int64 }
 
-func (x *Int64) Load() int64         { pt("atomic.Int64.Load"); return x.v.Load() }
-func (x *Int64) Store(v int64)       { pt("atomic.Int64.Store"); x.v.Store(v) }
-func (x *Int64) Add(d int64) int64   { pt("atomic.Int64.Add"); return x.v.Add(d) }
-func (x *Int64) Swap(v int64) int64  { pt("atomic.Int64.Swap"); return x.v.Swap(v) }
+func (x *Int64) Load() int64        { pt("atomic.Int64.Load"); return x.v.Load() }
+func (x *Int64) Store(v int64)      { pt("atomic.Int64.Store"); x.v.Store(v) }
+func (x *Int64) Add(d int64) int64  { pt("atomic.Int64.Add"); return x.v.Add(d) }
+func (x *Int64) Swap(v int64) int64 { pt("atomic.Int64.Swap"); return x.v.Swap(v) }
 func (x *Int64) CompareAndSwap(o, n int64) bool {
 	pt("atomic.Int64.CompareAndSwap")
 	return x.v.CompareAndSwap(o, n)
@@ -141,10 +144,10 @@ func (x *Int64) CompareAndSwap(o, n int64) bool {
 // Uint32 mirrors atomic.Uint32.
 type Uint32 struct{ v real.Uint32 }
 
-func (x *Uint32) Load() uint32          { pt("atomic.Uint32.Load"); return x.v.Load() }
-func (x *Uint32) Store(v uint32)        { pt("atomic.Uint32.Store"); x.v.Store(v) }
-func (x *Uint32) Add(d uint32) uint32   { pt("atomic.Uint32.Add"); return x.v.Add(d) }
-func (x *Uint32) Swap(v uint32) uint32  { pt("atomic.Uint32.Swap"); return x.v.Swap(v) }
+func (x *Uint32) Load() uint32         { pt("atomic.Uint32.Load"); return x.v.Load() }
+func (x *Uint32) Store(v uint32)       { pt("atomic.Uint32.Store"); x.v.Store(v) }
+func (x *Uint32) Add(d uint32) uint32  { pt("atomic.Uint32.Add"); return x.v.Add(d) }
+func (x *Uint32) Swap(v uint32) uint32 { pt("atomic.Uint32.Swap"); return x.v.Swap(v) }
 func (x *Uint32) CompareAndSwap(o, n uint32) bool {
 	pt("atomic.Uint32.CompareAndSwap")
 	return x.v.CompareAndSwap(o, n)
@@ -153,10 +156,10 @@ func (x *Uint32) CompareAndSwap(o, n uint32) bool {
 // Uint64 mirrors atomic.Uint64.
 type Uint64 struct{ v real.Uint64 }
 
-func (x *Uint64) Load() uint64          { pt("atomic.Uint64.Load"); return x.v.Load() }
-func (x *Uint64) Store(v uint64)        { pt("atomic.Uint64.Store"); x.v.Store(v) }
-func (x *Uint64) Add(d uint64) uint64   { pt("atomic.Uint64.Add"); return x.v.Add(d) }
-func (x *Uint64) Swap(v uint64) uint64  { pt("atomic.Uint64.Swap"); return x.v.Swap(v) }
+func (x *Uint64) Load() uint64         { pt("atomic.Uint64.Load"); return x.v.Load() }
+func (x *Uint64) Store(v uint64)       { pt("atomic.Uint64.Store"); x.v.Store(v) }
+func (x *Uint64) Add(d uint64) uint64  { pt("atomic.Uint64.Add"); return x.v.Add(d) }
+func (x *Uint64) Swap(v uint64) uint64 { pt("atomic.Uint64.Swap"); return x.v.Swap(v) }
 func (x *Uint64) CompareAndSwap(o, n uint64) bool {
 	pt("atomic.Uint64.CompareAndSwap")
 	return x.v.CompareAndSwap(o, n)
